@@ -265,6 +265,9 @@ def gen_core(seed, opts=None):
             pol['chunk_max'] = _pick(rng, [(1, 16), (1, 64)])
         if est > 20000 and pol.get('chunk') == 'rand' and pol.get('chunk_max', 64) < 16:
             pol['chunk_max'] = 64
+        if est > 100000 and pol.get('chunk') == 'rand':
+            # a megabyte trickled in 16-byte reads only runs into the iteration cap (nothing is judged then)
+            pol['chunk_max'] = max(pol.get('chunk_max', 64), est // 1500)
     if opts.get('burst') and rng.random() < 0.5:
         for ia in plan['interactions']:
             ia['at'] = 0.0
